@@ -357,18 +357,22 @@ def chain(index, rep, db):
         xr = index.func(EXT, "Extractor.extract_results")
         ir = index.func(INT, "Interpreter.interpret_results")
         xi = index.func(EXT, "Extractor.__init__")
-        if isinstance(e_w, ast.Call) and isinstance(e_w.func, ast.Attribute) and e_w.func.attr == "interpret_results" and isinstance(e_w.func.value, ast.Name):
+        fresh_interp = isinstance(e_w, ast.Call) and isinstance(e_w.func, ast.Attribute) and isinstance(e_w.func.value, ast.Call) \
+            and dotted(e_w.func.value.func) == "Interpreter"      # the interpreter is a parameter, or made here
+        if isinstance(e_w, ast.Call) and isinstance(e_w.func, ast.Attribute) and e_w.func.attr == "interpret_results" and (
+                isinstance(e_w.func.value, ast.Name) or fresh_interp):
             ex_, title_ = _abn(e_w, ir, ["extracted_results", "title"])
             if isinstance(ex_, ast.Call) and isinstance(ex_.func, ast.Attribute) and ex_.func.attr == "extract_results" \
                     and isinstance(ex_.func.value, ast.Call) and dotted(ex_.func.value.func) == "Extractor":
                 m3 = _abn(ex_, xr, ["model", "variables", "time_consts"])
                 c1 = _abn(ex_.func.value, xi, ["constants"])
-                vals = [e_w.func.value, c1[0]] + m3 + [title_]
+                vals = ([] if fresh_interp else [e_w.func.value]) + [c1[0]] + m3 + [title_]
                 if all(isinstance(v_, ast.Name) for v_ in vals):
-                    roles = dict(zip(("interpreter", "constants", "model", "variables", "time_consts", "title"), [v_.id for v_ in vals]))
+                    roles = dict(zip((() if fresh_interp else ("interpreter",)) + ("constants", "model", "variables", "time_consts", "title"),
+                                     [v_.id for v_ in vals]))
     except AnalysisError:
         roles = {}
-    rep.check(bool(roles) and len(set(roles.values())) == 6 and set(roles.values()) <= set(P[1:]), rule, "wiring:same-solve",
+    rep.check(bool(roles) and len(set(roles.values())) == len(roles) >= 5 and set(roles.values()) <= set(P[1:]), rule, "wiring:same-solve",
               "results are not extracted from the (model, variables, time_consts, constants) of the solve being reported", loc=loc(RUN, io),
               detail=f"got {got}")
     ro = index.func(RUN, "ScenarioRunner.run_optimizer")
@@ -448,54 +452,23 @@ def coef(index, rep, db):
         rep.check(val is not None and val == lp[fam], rule, f"ratio:{fam}",
                   f"the reporting factor of {fam} ({val}) differs from its coefficient in the optimiser's consumption sum ({lp[fam]}): the "
                   "breakdown would not add up to the optimised percent fed", loc=loc(EXT, er_))
-    # generic conversion: billions fed = series * ratio / KCALS_MONTHLY
+    # generic conversion: billions fed = series * ratio / KCALS_MONTHLY - read off the evaluated chain (whatever the signature of the helper
+    # that does it): every reported to-humans series of the four foods is its variable family x one plain factor / KCALS_MONTHLY, in billions
+    # fed each month; for seaweed the factor is the kcals per unit of the variable
     cls = index.cls(EXT, "Extractor")
-    g = index.func(EXT, "Extractor.extract_generic_results")
-
-    from .core import values_by_ref_names
-    tml_fn = index.func(EXT, "Extractor.to_monthly_list")
-
-    def hook(interp, d, args, kwargs, node):
-        if d == "self.to_monthly_list":
-            v_, c_ = values_by_ref_names(tml_fn, args, kwargs, ["variables", "conversion"])
-            return Rat.atom(("series", str(interp.to_rat(v_)))) * interp.to_rat(c_)
-        if d == "Food":
-            return PDict(dict(kwargs))
-        if d in ("np.zeros", "np.array"):
-            return NotImplemented
-        return NotImplemented
-
-    it2 = Interp(decisions={})
-    it2.classes = {"Extractor": cls}
-    it2.call_hook = hook
-    P, rk, rf, rp = (Rat.atom((n,)) for n in ("P", "rk", "rf", "rp"))
-    obj = Obj(cls, {"constants": Path(("consts",))}, "self")
-    try:
-        gp = [a.arg for a in g.args.args][1:]
-        by_word = {"fat": rf, "protein": rp, "kcals": rk}
-        gargs = {}
-        for i_, p_ in enumerate(gp):
-            words = [w for w in by_word if w in p_.lower() and "ratio" in p_.lower()]
-            if len(words) == 1:
-                gargs[p_] = by_word[words[0]]
-            elif "const" in p_.lower():
-                gargs[p_] = Path(("consts",))
-            elif P not in gargs.values() and "ratio" not in p_.lower():
-                gargs[p_] = P
-            else:
-                raise AnalysisError(f"extract_generic_results: parameter {p_!r} is none of (series, kcals/fat/protein ratio, constants)")
-        res = it2.call_function(g, [], gargs, obj)
-    except AnalysisError:
-        raise
-    except Exception as e:
-        raise AnalysisError(f"extract_generic_results outside the fragment: {e!r}")
+    g = index.func(EXT, "Extractor.extract_generic_results", required=False)
     km = Rat.atom(K(("consts", "KCALS_MONTHLY"), None))
-    want = Rat.atom(("series", str(P))) * rk / km
-    ok = isinstance(res, PDict) and isinstance(res.d.get("kcals"), Rat) and res.d["kcals"] == want and \
-        res.d.get("kcals_units") == "billion people fed each month"
+    ok = True
+    details = []
+    for food, (lpfam, exattr) in VAR_FOODS.items():
+        v_ = deep.get(f"{exattr}_to_humans")
+        f_ = triple_factor(deep, lpfam, exattr)
+        ok = ok and f_ is not None and isinstance(v_, PDict) and v_.d.get("kcals_units") == "billion people fed each month"
+        details.append(f"{food}: {f_}")
+    ok = ok and triple_factor(deep, "seaweed", "seaweed") == Rat.atom(K(("consts", "SEAWEED_KCALS"), None))
     rep.check(ok, rule, "generic:billions-fed = value x ratio / KCALS_MONTHLY",
-              "extract_generic_results does not convert a variable's value to billions fed as value x kcals_ratio / KCALS_MONTHLY", loc=loc(EXT, g),
-              detail=str(res.d.get("kcals")) if isinstance(res, PDict) else str(res))
+              "a variable's value is not converted to billions fed as value x kcals_ratio / KCALS_MONTHLY", loc=loc(EXT, g) if g is not None else EXT,
+              detail="; ".join(details))
     # meat, crops: ratio 1
     meat = deep.get("meat")
     milk = deep.get("milk")
